@@ -86,8 +86,7 @@ def ops_b(max_len: int):
 
 def plan(tier: str, seed: int):
     shards = [(driver, s, part) for s in range(len(SETTINGS)) for driver in ("A", "B") for part in range(PARTS)]
-    if tier == "thorough":
-        shards += [("T", s, 0) for s in range(len(SETTINGS))]  # TLC model + conformance replay of its state graph
+    shards += [("T", s, 0) for s in range(len(SETTINGS))]  # TLC model + conformance replay of its state graph
     return shards
 
 
@@ -349,8 +348,13 @@ def run_tlc(setting):
         cmd = ["java", "-Xmx512m", "-XX:+UseSerialGC", "-cp", TLA_JAR, "tlc2.TLC", "-workers", "1", "-noGenerateSpecTE",
                "-metadir", os.path.join(work, "meta"), "-dump", "dot,actionlabels", os.path.join(work, "graph"),
                "-config", "Cascade.cfg", "Cascade.tla"]
-        r = subprocess.run(cmd, cwd=work, capture_output=True, text=True, timeout=600)
+        try:
+            r = subprocess.run(cmd, cwd=work, capture_output=True, text=True, timeout=600)
+        except (OSError, subprocess.TimeoutExpired) as ex:
+            return "unavailable", repr(ex)
         out = r.stdout + r.stderr
+        if "Model checking completed" not in out and "Error:" not in out and "violated" not in out:
+            return "unavailable", out[-500:]
         if "No error has been found" not in out:
             return None, out[-2000:]
         dot = open(os.path.join(work, "graph.dot")).read()
@@ -370,6 +374,9 @@ def tlc_conformance(acc: Acc, setting) -> None:
     name = {"lock_previous": setting[0], "default": setting[1], "lock_range": setting[2]}
     res, log = run_tlc(setting)
     case0 = {"driver": "T", "setting": name, "history": [], "op": ["tlc"]}
+    if res == "unavailable":
+        acc.cls("tlc_unavailable")  # java/TLC could not be started: the Python search above remains the decision procedure
+        return
     if res is None:
         acc.violate("tlc-model-error", {}, case0, "No error has been found", log[-400:], "TLC reports an error in the cascade model (or could not run)")
         return
@@ -423,7 +430,8 @@ def run_shard(tier: str, seed: int, shard):
     max_len = 2 if tier == "quick" else 3
     if driver == "T":
         acc.guard({"driver": "T", "setting": list(SETTINGS[s]), "history": [], "op": ["tlc"]}, tlc_conformance, acc, SETTINGS[s])
-        acc.cls("tlc_models_checked")
+        if not acc.classes.get("tlc_unavailable"):
+            acc.cls("tlc_models_checked")
     else:
         explore(acc, driver, SETTINGS[s], max_len, part=part, parts=PARTS)
     return acc.result()
@@ -447,9 +455,9 @@ def summarize(tier: str, seed: int, merged: dict) -> dict:
             "states = distinct (model, real) states; transitions = operations executed on a fresh real object after "
             "replaying the shortest history of the source state; non-trivial = the call contains a NaN row and "
             "lock-previous or a default is set"
-            + (". Thorough tier: vmc/tla/Cascade.tla is model-checked by TLC for each setting (invariants InRange, "
+            + (". Additionally vmc/tla/Cascade.tla is model-checked by TLC for each setting (invariants InRange, "
                "NoNaNWithDefault, LockedNeverLosesValue, action property PreviousIsOldValue) and every edge of its dumped state "
-               "graph is replayed on the real OutputVariable (counters tlc_distinct_states, tlc_edges_replayed)" if tier == "thorough" else "")
+               "graph is replayed on the real OutputVariable (counters tlc_distinct_states, tlc_edges_replayed)" if merged["classes"].get("tlc_models_checked") else "")
         ),
         "exhaustive": True,
         "vacuity_errors": vac,
